@@ -116,3 +116,11 @@ def batchAgree (f : Func) (seed : Nat) : Bool :=
   let (cfg, scr, ctx) := batchScenario seed
   runBatchIR 400 f .canceled 3 1 8 cfg scr ctx == some (runBatch .canceled 3 1 8 cfg scr ctx)
 end Flyt.GoIR.Gen
+
+namespace Flyt.GoIR.Gen
+/-! runBatchConcurrent on the serial schedule vs itemsSerialPool -/
+def cagree (f : Func) (seed : Nat) : Bool :=
+  let (cfg0, scr, ctx, items) := seqScenario seed
+  let cfg := { cfg0 with conc := 1 + seed % 3 }
+  itemsConcSerialIR 400 f .canceled 3 1 cfg scr idxOfTok items ctx == some (itemsSerialPool .canceled 3 1 cfg scr items 0 false ctx)
+end Flyt.GoIR.Gen
